@@ -4,6 +4,7 @@ import re
 
 from .. import hooks
 from ..gen import canon, dt_us, mk_event, rand_grid, td_us
+from . import _tx
 from ._tx import exc_viol, is_event_list, tmod, unmodified
 
 ID = "C19"
@@ -218,6 +219,7 @@ def monitors():
 
 
 def setup(ctx):
+    import aw_query.functions  # noqa: F401 - its aliases of the transforms must exist before they are patched
     for m, n, pre, post in monitors():
         MON[n] = hooks.Monitor(m, n, pre, post).install()
 
@@ -309,6 +311,8 @@ def gen_case(rng, ctx):
 
 
 def run_case(case, ctx):
+    if case.get("kind") == "query":
+        return _tx.run_query_case(case, ctx, MON)
     events = [mk_event(s) for s in case["events"]]
     fn = case["fn"]
     cl = tmod("classify")
@@ -352,3 +356,13 @@ def run_case(case, ctx):
     if not dom:
         ctx.count("generator_out_of_domain")
     return viols, dict(sig=sig, nontrivial=nontriv and dom)
+
+
+def worker(ctx):
+    """direct driver + the same monitors under generated query programs (+ the repository's tests, thorough tier)"""
+    import sys
+    from ..worker import default_worker
+    _tx.query_workload(ctx, MON, 400 if ctx.tier == "quick" else 6000, ID)
+    if ctx.tier == "thorough" and ctx.widx == 0:
+        _tx.pytest_workload(ctx, ID)
+    default_worker(sys.modules[__name__], ctx)
